@@ -204,14 +204,35 @@ def add_e2e_observations(crate, project, ptable, rng, n_assign=2, flavours=("td_
                         body.append("    { let v = td!(%s, %s%s%s); emit(%d, \"td\", &html(v)); }" % (lv, kp, sep_v, va, oid))
                     crate.add("\n".join(body), {"ns": ns, "locale": loc, "effective": eff, "path": list(path), "args": args,
                                                 "counts": cvals, "expected": expected, "rnodes": rn})
+                    if len(args) >= 2 and (args, cvals) == assignments[0]:
+                        # the argument expressions mention locals that are named like the *other* variables of the key (a = b, b = a):
+                        # each variable must receive the value of the expression written for it, evaluated in the caller's scope
+                        names = sorted(args)
+                        rot = {names[i]: names[(i + 1) % len(names)] for i in range(len(names))}
+                        lets = " ".join("let %s = %s;" % (e2e.ident(n), e2e.rust_str(args[n])) for n in names)
+                        swapped = {n: args[rot[n]] for n in names}
+                        rest_s = e2e.args_tokens({}, cvals, allc, "string")
+                        rest_v = e2e.args_tokens({}, cvals, allc, "view")
+                        toks = ", ".join("%s = %s" % (e2e.ident(n), e2e.ident(rot[n])) for n in names)
+                        oid = crate.next_id
+                        body = []
+                        if "td_string" in flavours:
+                            body.append("    { %s let v = td_string!(%s, %s, %s%s); emit(%d, \"td_string\", &v.to_string()); }" % (lets, lv, kp, toks, (", " + rest_s) if rest_s else "", oid))
+                        if "td" in flavours:
+                            body.append("    { %s let v = td!(%s, %s, %s%s); emit(%d, \"td\", &html(v)); }" % (lets, lv, kp, toks, (", " + rest_v) if rest_v else "", oid))
+                        crate.add("\n".join(body), {"ns": ns, "locale": loc, "effective": eff, "path": list(path), "args": swapped, "counts": cvals,
+                                                    "expected": model.render_rnodes(rn, swapped, eff, ptable, cvals), "rnodes": rn, "swapped": True,
+                                                    "only": [f for f in ("td_string", "td") if f in flavours]})
 
 
 def judge_e2e(res, crate, obs, flavours=("td_string", "td_display", "td"), prop_sig="C01"):
     from .. import e2e
     for oid, exp in crate.expect.items():
         got = obs.get(oid, {})
-        for fl in flavours:
+        for fl in (exp.get("only") or flavours):
             res.ev()
+            if exp.get("swapped"):
+                res.count("e2e:arguments-named-like-other-variables")
             o = got.get(fl) or got.get("*")
             if o is None:
                 text = "<<no observation>>"
